@@ -42,6 +42,25 @@ def _band_job(label):
 
 WITNESSES = ["witness-%d" % b for b in range(65)]
 
+_FB = ["-inf", "-maxfloat", "-1", "0", "1", "maxfloat", "inf"]
+_FV = [float("-inf"), -1.7e308, -1.0, 0.0, 1.0, 1.7e308, float("inf")]
+
+
+def _float_edge_labels(idx):
+    out = []
+    for a in idx:
+        for b in idx:
+            if a <= b:
+                tag = "[%s,%s]" % (_FB[a], _FB[b])
+                out += ["max-of-" + tag, "min-of-" + tag]
+                if _FV[a] <= 0.0 <= _FV[b]:
+                    out.append("zero-in-" + tag)
+    return out
+
+
+def _float_job(label):
+    return {"harness": "H_C18_nativeFloatEdge", "vals": {}}
+
 CONC_ASSUME = ["interleavings: sequentially consistent, context switches at synchronisation operations only (mutex/rwmutex lock, Once.Do, atomic load/store, sync.Map, WaitGroup.Wait, go, goroutine end); sufficient for race detection because the first race of an execution is exhibited by an execution that is race-free up to it",
                "preemption bound: at most 2 (quick) / 2-3 (thorough) preemptive switches per path; switches at blocking operations and goroutine exits are free",
                "sync.Mutex/RWMutex/Once/WaitGroup/atomic/sync.Map are models with the happens-before edges of the Go memory model (unlock->lock, RUnlock->Lock, Once completion->Do return, atomic store->load, Done->Wait, go->goroutine start); writer starvation and fairness are not modelled",
@@ -99,10 +118,13 @@ PROPS = {
             H("H_C18_edges", "forcing regions for Uint64Range, all min and all spans of every bit length 1..64: bias word below Tlo (and an even data word) forces min, bias word above Thi forces max; both regions have measure >= 2^-8 (computed in the harness from the documented bias schedule, slack 2^30)", reach=["min-forced", "max-forced"], quick=Q, thorough=T),
             H("H_C18_fresh", "baseSeed() without -rapid.seed is the environment's entropy (two calls can differ, not a constant); seeds of test cases i<j<40 of one run differ for every base seed", reach=["two-calls-can-differ", "not-a-constant", "distinct"], quick=Q, thorough=T, nodiff=True),
             H("H_C18_freshChecks", "two real checkTB runs under one test name in one process, no -rapid.seed; environment symbolic under its contracts (entropy values pairwise distinct, clock non-decreasing with equal readings allowed, pid constant): the seeds of the two runs differ for every such environment", reach=["compared", "not-a-constant"], quick=Q, thorough=T, nodiff=True),
+            H("H_C18_floatEdges", "Float64Range over every pair of bounds from {-Inf, -1, 0, +Inf}: the solver synthesises 8-word bitstreams on which the real generator returns exactly min, exactly max, and 0 when it is in range (every path of the real float kernel explored)", must_reach=_float_edge_labels([0, 2, 3, 6]), unreach_job=_float_job, quick=Q, thorough=T, nodiff=True),
+            H("H_C18_floatEdgesFull", "the same for all 28 ranges over {-Inf, -MaxFloat64, -1, 0, 1, MaxFloat64, +Inf}", must_reach=_float_edge_labels([0, 1, 2, 3, 4, 5, 6]), unreach_job=_float_job, thorough_only=True, thorough=T, nodiff=True),
+            H("H_C18_nativeFloatEdge", "native-only confirmation sweep for an unreachable float edge (20000 draws per range), no-op under gosym", quick=Q, thorough=T, nodiff=True),
             H("H_C18_nativeBand", "native-only confirmation sweep (400000 draws), no-op under gosym", quick=Q, thorough=T, nodiff=True),
         ],
         "assumptions": ENGINE_ASSUME + ["genGeom summarised as a monotone step function (see C03)", "probability statements are reduced to a solver-proved forcing region plus its exactly computed measure under uniform words",
-                                        "float ranges and the rune/collection generators are outside the reachability claim", "hash/maphash is the environment: its value is an unconstrained symbol"],
+                                        "float ranges: only the edges (min, max, zero) of representative ranges are shown reachable, not every float value; rune/collection generators are outside the reachability claim", "hash/maphash is the environment: its value is an unconstrained symbol"],
     },
     "C01": {
         "level": "model_checking",
@@ -146,7 +168,7 @@ PROPS = {
         "harnesses": [
             H("H_C07_seedSchedule", "real findBug with symbolic 64-bit base seed, N=2 (quick) / 3 (thorough); property = data-dependent pass/skip/fail on the first PRNG word; then a second findBug run from the reported seed", reach=["failed", "no-failure"], quick=Q, thorough=T, search=["seed"]),
             H("H_C09_findBugStep", "seed schedule step for every position in a run of any length, see C09", reach=["iterated", "failed"], quick=Q, thorough=T),
-            H("H_C07_streamState", "ONE iteration of the real findBug loop from an arbitrary carried-over state of the reused stream and T (loop cut-point; recorder length < 2^40, draw counter any): a failing test case is regenerated, value by value, by a fresh stream with the reported seed (property draws a SliceOfN(Bool,0,2) and a raw word)", reach=["iterated", "failed", "loop-back-edge"], quick=Q, thorough=T, nodiff=True),
+            H("H_C07_streamState", "ONE iteration of the real findBug loop from an arbitrary carried-over state of the reused stream and T (loop cut-point; recorder length < 2^40, draw counter any): a failing test case is regenerated, value by value, by a fresh stream with the reported seed (property draws a SliceOfN(Bool,0,2) and a raw word)", reach=["iterated", "failed", "loop-back-edge"], quick=Q, thorough=T, nodiff=True, search=["seed"], search_any=True),
             H("H_C07_plumbing", "real checkTB with symbolic non-zero -rapid.seed after 0..2 earlier base-seed requests in the process, two consecutive Checks, checks=1, nofailfile, shrinktime 0", reach=["failed", "not-failed"], quick=Q, thorough=T, search=["flagseed"]),
             H("H_C07_determinism", "two runs of the real doCheck (checks=2, shrinktime 0) from one symbolic seed, compared invocation by invocation", reach=["failed", "passed"], quick=Q, thorough=T, search=["seed"]),
         ],
